@@ -179,6 +179,16 @@ impl Freelist {
     }
 }
 
+#[cfg(feature = "verif-hooks")]
+impl Freelist {
+    pub(crate) fn verif_state(&self) -> (Vec<PageID>, Vec<(u64, Vec<PageID>)>) {
+        (
+            self.free_pages.iter().cloned().collect(),
+            self.pending_pages.iter().map(|(k, v)| (*k, v.clone())).collect(),
+        )
+    }
+}
+
 #[cfg(test)]
 mod tests {
     use super::*;
